@@ -27,7 +27,7 @@ RULE = ('pipeline: C01 signal domain with tie-rich signals over-weighted, burst_
         'drawn trough/peak/trough index triples fed to compute_monotonicity. Range claim [0,1] asserted when the flank voltages '
         'involved are positive. Non-trivial: rank ties in volt_amp, or a plateau step inside a flank, or the minimum of the '
         'three pairs attained at a neighbour pair (pairing matters), or direction != both. Distinct = distinct case.')
-ASSUMPTIONS = ['amp_consistency rows in which one of the selected min/max ratios is 0/0 are undefined by the statement: counted, skipped',
+ASSUMPTIONS = ['amp_consistency rows in which one of the selected min/max ratios is 0/0 (or, with flank voltages recomputed from the signal, x/0 with a signed zero) are undefined by the statement: counted, skipped',
                'tables have >= 1 row']
 TRUSTED = ['numpy', 'pandas', 'scipy.stats.rankdata']
 
@@ -76,7 +76,7 @@ def check_pipeline(case, rec):
     rec.label(*gen.case_labels(case))
     ext, F = ref.flank_sequence(x, df)
     # the table's voltage columns must be the flank sequence (C04), otherwise the comparison below is meaningless
-    exp_ac, undef = ref.ref_amp_consistency_from_flanks(F, n, 'both')
+    exp_ac, undef = ref.ref_amp_consistency_from_flanks(F, n, 'both', inf_undefined=True)
     cmp_exact('amp_consistency', df['amp_consistency'].values, exp_ac, skip=undef)
     cmp_exact('period_consistency', df['period_consistency'].values, ref.ref_period_consistency(np.diff(ext[0::2])))
     cmp_exact('amp_fraction', df['amp_fraction'].values, ref.ref_amp_fraction((F[0::2] + F[1::2]) / 2))
